@@ -443,7 +443,8 @@ Definition opt_result_eqb (a b : opt_result) : bool :=
   | _, _ => false
   end.
 
-Definition idx_code (i : index) : list N := idx_key i.
+Definition idx_code (i : index) : list N :=
+  [(space_code (ispace i) + 3 * (spin_code (ispin i) + 3 * (iletter i + 256 * (inum i + 1024 * iuid i))))%N].
 Definition name_code (n : oname) : N :=
   match n with NBase k => (2 * N.of_nat k)%N | NContr k => (2 * k + 1)%N end.
 Definition ilist_code (l : list index) : list N :=
@@ -453,9 +454,9 @@ Definition contraction_code (c : contraction) : list N :=
   [N.of_nat (length (c_idx c))] ++ flat_map ilist_code (c_idx c) ++
   ilist_code (c_contracted c) ++ ilist_code (c_target c) ++
   map N.of_nat (scomp_fields (s_comp (c_scaling c)) ++ scomp_fields (s_mem (c_scaling c))).
-Definition digest_mod : N := 2305843009213693951%N.      (* 2^61 - 1 *)
+Definition digest_mask : N := 2305843009213693951%N.     (* 2^61 - 1 *)
 Definition digest (l : list N) : N :=
-  fold_left (fun h x => ((h * 1000003 + x + 1) mod digest_mod)%N) l 7%N.
+  fold_left (fun h x => N.land (N.shiftl h 20 + 7 * h + x + 1)%N digest_mask) l 7%N.
 Definition scheme_digest (s : scheme) : N :=
   digest (N.of_nat (length s) :: flat_map contraction_code s).
 
